@@ -44,13 +44,13 @@ theorem triviaS_ignorable (x : ANode) (h : ANode.tokensAreLeaves x = true) (hi :
 
 /-- The generic list construct: process the children, print the list. -/
 theorem list_construct_carries (e : Env) (ctx : Ctx) (checker : Ctx → ANode → M (Option Doc)) (ok : ANode → Prop)
-    (hc : CheckerS checker specAll ok) (s0 : LS) (h0 : s0.items = [] ∧ s0.free = [] ∧ s0.peekHash = false)
+    (hc : CheckerS checker specAll ok) (hctx : NM ctx) (s0 : LS) (h0 : s0.items = [] ∧ s0.free = [] ∧ s0.peekHash = false)
     (post : LS → LS) (hpost : ∀ s, (post s).items = s.items)
     (sty : ListStyle) (hsep : Carries sty.sep {}) (hd0 : Carries sty.d0 {}) (hd1 : Carries sty.d1 {})
     (nodes : List ANode) (hok : ∀ x ∈ nodes, ok x) (hnh : ∀ x ∈ nodes, x.kind ≠ .hash) :
     Post (do let ls ← s0.processM e ctx nodes checker; pure ((post ls).print e sty)) (fun d => Carries d (specAllL nodes)) := by
   have hinv : LInv s0 {} := ⟨by rw [h0.1]; rfl, by rw [h0.2.1]; rfl, by rw [h0.1, h0.2.1]; rfl, h0.2.2⟩
-  refine Post.bind (processM_carries e ctx checker hc s0 hinv nodes hok hnh) (fun ls hls => Post.pure ?_)
+  refine Post.bind (processM_carries e ctx checker hc hctx s0 hinv nodes hok hnh) (fun ls hls => Post.pure ?_)
   have heq := hls.1.eq
   rw [hls.2] at heq
   simp only [docsS, Streams.app_empty, foldl_specAll, Streams.empty_app] at heq
